@@ -109,10 +109,22 @@ def build_network(net):
         if net.get("np_scalars"):
             # parameters that come out of a numpy / pandas parameter sweep: numpy scalars, numpy booleans
             kw_ = {k_: (sut.np.bool_(v_) if isinstance(v_, bool) else sut.np.float64(v_)) for k_, v_ in kw_.items()}
-        nw = StochasticNetwork(**kw_)
+        if net.get("positional"):
+            # the released positional order of the constructor: (violation_tolerance, relative_tolerance, early_departure)
+            order_ = ["violation_tolerance", "relative_tolerance", "early_departure"]
+            full_ = {"violation_tolerance": net["violation_tolerance"], "relative_tolerance": net["relative_tolerance"],
+                     "early_departure": net.get("early_departure", False)}
+            if net.get("np_scalars"):
+                full_ = {k_: (sut.np.bool_(v_) if isinstance(v_, bool) else sut.np.float64(v_)) for k_, v_ in full_.items()}
+            nw = StochasticNetwork(*[full_[k_] for k_ in order_])
+        else:
+            nw = StochasticNetwork(**kw_)
     elif net["kind"] == "custom":
-        nw = sut.ChargingNetwork(**_kw(violation_tolerance=(net["violation_tolerance"], 1e-5),
-                                       relative_tolerance=(net["relative_tolerance"], 1e-7)))
+        if net.get("positional"):
+            nw = sut.ChargingNetwork(net["violation_tolerance"], net["relative_tolerance"])      # released positional order
+        else:
+            nw = sut.ChargingNetwork(**_kw(violation_tolerance=(net["violation_tolerance"], 1e-5),
+                                           relative_tolerance=(net["relative_tolerance"], 1e-7)))
     elif net["kind"] in ("caltech", "jpl", "office001"):
         from acnportal.acnsim.network import sites
         f = {"caltech": sites.caltech_acn, "jpl": sites.jpl_acn, "office001": sites.office001_acn}[net["kind"]]
